@@ -27,6 +27,8 @@
    No Mathlib; core only. -/
 import LdkModel.Generated.Consts
 import LdkModel.Generated.Gossip
+import LdkModel.Model.GossipSig
+import LdkModel.Generated.GossipNetUpd
 namespace Ldk.Gossip
 
 /-! ### canonical finite maps -/
@@ -297,6 +299,32 @@ def removeChanInNodes (nodes : SMap NodeInfo) (c : ChanInfo) (scid : Nat) : SMap
 
 def ChanAnn.sigsOk (a : ChanAnn) : Bool := a.sigN1 && a.sigN2 && a.sigB1 && a.sigB2
 
+/-- what the op line says about a signature slot: `true` = made over this message by the key announced in the
+    slot the signature belongs to (BOLT 7 pairing, `Gen.CaSig.ownKey`), `false` = by a key that is none of the
+    announced ones -/
+def ChanAnn.flag (a : ChanAnn) : Gen.CaSig → Bool
+  | .node_signature_1 => a.sigN1
+  | .node_signature_2 => a.sigN2
+  | .bitcoin_signature_1 => a.sigB1
+  | .bitcoin_signature_2 => a.sigB2
+
+/-- holders of the announced keys of a `ca` op -/
+def ChanAnn.keyOf (a : ChanAnn) : Gen.CaKey → KeyId
+  | .node_id_1 => .node a.n1
+  | .node_id_2 => .node a.n2
+  | .bitcoin_key_1 => .btc 0
+  | .bitcoin_key_2 => .btc (if a.sameBtc then 0 else 1)
+
+/-- the wire-level reading of a `ca` op: announced key holders and who made each signature -/
+def ChanAnn.wire (a : ChanAnn) : CaWire where
+  key := a.keyOf
+  sig := fun s => ⟨if a.flag s then a.keyOf s.ownKey else .other 0, true⟩
+
+/-- the wire-level reading of a `na` op -/
+def NodeAnn.wire (n : NodeAnn) : NaWire where
+  key := fun | .node_id => .node n.node
+  sig := fun | .signature => ⟨if n.sigOk then .node n.node else .other 0, true⟩
+
 -- mirrors gossip.rs::pre_channel_announcement_validation_check
 def chanAnnPre (g : Graph) (a : ChanAnn) : Option Reject :=
   if a.n1 ≥ a.n2 then some .nodeIdsNotSorted
@@ -529,6 +557,12 @@ def run (g : Graph) (ops : List Op) : Graph := ops.foldl (fun g o => (step g o).
 /-! ## the model proper: every decision is a call of generated code (Generated/Gossip.lean) -/
 namespace Impl
 
+-- mirrors gossip.rs::verify_channel_announcement: the GENERATED check list evaluated on the op's wire reading
+def chanAnnSigsVerify (a : ChanAnn) : Bool := verifyChanAnn a.wire
+
+-- mirrors gossip.rs::verify_node_announcement: the GENERATED check list evaluated on the op's wire reading
+def nodeAnnSigVerifies (n : NodeAnn) : Bool := verifyNodeAnn n.wire
+
 /-- `channel_flags` as the harness builds it: bit 0 = direction, bit 1 = disabled -/
 def _root_.Ldk.Gossip.ChanUpd.channelFlags (u : ChanUpd) : Nat :=
   (if u.dir then 1 else 0) ||| (if u.disabled then 2 else 0)
@@ -571,7 +605,7 @@ def applyChanAnn (g : Graph) (a : ChanAnn) : Graph × Outcome :=
   match chanAnnPre g a with
   | some r => (g, .reject r)
   | none =>
-    if a.verify && !a.sigsOk then (g, .reject .badSig)
+    if a.verify && !chanAnnSigsVerify a then (g, .reject .badSig)
     else if Gen.annRecentlyRemoved g.removedChannels.contains g.removedNodes.contains a.scid a.n1 a.n2 then
       (g, .reject .recentlyRemoved)
     else match a.utxo with
@@ -653,10 +687,10 @@ def preDup (o : Option NodeAnnInfo) (ts : Nat) : Bool :=
 -- and update_node_from_announcement_intern
 def applyNodeAnn (g : Graph) (n : NodeAnn) : Graph × Outcome :=
   match g.nodes.get n.node with
-  | none => if n.verify && !n.sigOk then (g, .reject .badSig) else (g, .reject .noChannelsForNode)
+  | none => if n.verify && !nodeAnnSigVerifies n then (g, .reject .badSig) else (g, .reject .noChannelsForNode)
   | some ni =>
     if n.verify && preDup ni.ann n.ts then (g, .reject .sameTimestamp)
-    else if n.verify && !n.sigOk then (g, .reject .badSig)
+    else if n.verify && !nodeAnnSigVerifies n then (g, .reject .badSig)
     else match updNode ni n with
       | .error r => (g, .reject r)
       | .ok ni' => ({ g with nodes := g.nodes.insert n.node ni' }, .accept)
@@ -826,6 +860,27 @@ def applySnapshot (g : Graph) (s : Snapshot) : Graph × Outcome :=
       else
         let g3 := s.upds.foldl (rgsUpdStep ts s) g2
         (match s.now with | some t => pruneAt g3 t | none => g3, .done)
+
+/-! ### payment-failure reports -/
+
+/-- `NetworkUpdate` (gossip.rs): a payment failure blamed on a channel / a node, permanent or not -/
+inductive NetUpd
+  | channelFailure (scid : Nat) (isPermanent : Bool)
+  | nodeFailure (id : Nat) (isPermanent : Bool)
+  deriving DecidableEq, Repr
+
+-- mirrors gossip.rs::NetworkGraph::handle_network_update: the graph operation a report turns into (none = no-op);
+-- the two guards are GENERATED from the `if` conditions of the two match arms
+def netUpdateOp (u : NetUpd) (now : Nat) : Option Op :=
+  match u with
+  | .channelFailure scid p => if Gen.chanFailureActs p then some (.failPermanent scid now) else none
+  | .nodeFailure id p => if Gen.nodeFailureActs p then some (.nodeFailPermanent id now) else none
+
+-- mirrors gossip.rs::NetworkGraph::handle_network_update on the graph
+def handleNetworkUpdate (g : Graph) (u : NetUpd) (now : Nat) : Graph :=
+  match netUpdateOp u now with
+  | some op => (step g op).1
+  | none => g
 
 end Impl
 
